@@ -204,6 +204,12 @@ func runC11(c *core.Ctx, idx int) {
 			{"map element !=", "mp.k != " + lit, func(row string) bool { return row != s }, false},
 			{"map element in", "mp.k in [" + lit + "]", func(row string) bool { return row == s }, false},
 			{"anyOf =", "anyOf(tags) = " + lit, nil, true},
+			// the same literal twice in one filter, under a case-insensitive and a case-sensitive operator
+			{"icontains and =", "f icontains " + lit + " and f = " + lit, func(row string) bool { return row == s }, false},
+			{"= and icontains", "f = " + lit + " and f icontains " + lit, func(row string) bool { return row == s }, false},
+			// two comparisons over the same set in one filter: each looks at the whole set
+			{"anyOf in, after a miss on the same set", `anyOf(tags) in ["zz-none"] or anyOf(tags) in [` + lit + "]", nil, true},
+			{"anyOf contains, after a miss on the same set", `anyOf(tags) != "zz-none-a" and anyOf(tags) = ` + lit, nil, true},
 		}
 		for _, qq := range qs {
 			query, err := ast.Parse(tbl, qq.text)
@@ -435,7 +441,10 @@ func c11Bolt(c *core.Ctx, db *boltz.DbImpl, st *schema.St, s string, cands []str
 		check(`in ["", lit]`, `f in ["", `+lit+"]", func(_ int, cand string) bool { return cand == s || cand == "" })
 		check("map element =", "mp.k = "+lit, func(_ int, cand string) bool { return cand == s })
 		check("map element in", "mp.k in ["+lit+"]", func(_ int, cand string) bool { return cand == s })
+		check("icontains and =", "f icontains "+lit+" and f = "+lit, func(_ int, cand string) bool { return cand == s })
 		if s != "" {
+			check("anyOf in, after a miss on the same set", `anyOf(tags) in ["zz-none"] or anyOf(tags) in [`+lit+"]", func(_ int, cand string) bool { return cand == s })
+			check("anyOf !=, then = on the same set", `anyOf(tags) != "zz-none-a" and anyOf(tags) = `+lit, func(_ int, cand string) bool { return cand == s })
 			check("anyOf =", "anyOf(tags) = "+lit, func(_ int, cand string) bool { return cand == s })
 			check("anyOf in", "anyOf(tags) in ["+lit+"]", func(_ int, cand string) bool { return cand == s })
 		}
